@@ -179,6 +179,16 @@ class SetWrapper(typing.MutableSet[T]):
             for v in arg:
                 self.add(v)
 
+    @classmethod
+    def _from_iterable(  # type: ignore[override]
+        cls, it: typing.Iterable[T]
+    ) -> typing.Set[T]:
+        # Used by the collections.abc.Set mixins (&, -, ^, reflected
+        # operators, &=) to build their results. Those results are plain
+        # sets: they do not own their elements, and subclasses cannot be
+        # constructed from an iterable alone.
+        return set(it)
+
     # begin functions for ABC
     def __contains__(self, v: object) -> bool:
         return v in self._data
